@@ -285,7 +285,8 @@ class DesignTop(Elaboratable):
         if comb == "or":
             kwargs["combiner"] = lambda mm, args, runs: {"x": or_value([Mux(runs[i], args[i].x, 0) for i in range(len(args))])}
         elif comb == "count":
-            kwargs["combiner"] = lambda mm, args, runs: {"x": popcount(runs)}
+            iw_ = ms.get("iw", 0)
+            kwargs["combiner"] = lambda mm, args, runs: {"x": (popcount(runs) + C(0, iw_))[:iw_]}
         if ms.get("validate"):
             kwargs["validate_arguments"] = lambda x: x != VALIDATE_BAD
         ow = ms.get("ow", 0)
@@ -368,6 +369,7 @@ class DesignTop(Elaboratable):
                                 m.next = f"S{(i + 1) % n}"
                     for i, pr in enumerate(probes):
                         m.d.top_comb += pr.eq(fsm.ongoing(f"S{i}"))
+                    self.fsm_probes.append(probes)
             elif k == "method":
                 self._def_method(m, st, bi, c_and(self._inner_total(bi, cond)))
             elif k == "trans":
